@@ -66,7 +66,8 @@ Text(dummy) == UNION { StringCases(s) : s \in StrSet } \cup UNION { KeyCases(k) 
 Dec(m, e) == <<"dec", m, e>>
 PrimSet == { JNull, JBool(TRUE), JBool(FALSE), JInt(0), JInt(0 - 1), JInt(1000000), JInt(0 - 2147483647),
              Dec(5, 0 - 1), Dec(0 - 5, 0 - 1), Dec(25, 0 - 2), Dec(5, 0 - 2), Dec(15, 0 - 1), Dec(0 - 275, 0 - 2), Dec(1005, 0 - 1), Dec(1, 0 - 3),
-             Dec(123456789, 0 - 3), Dec(1, 21), Dec(15, 0 - 8), Dec(25, 0 - 1) }
+             Dec(123456789, 0 - 3), Dec(1, 21), Dec(15, 0 - 8), Dec(25, 0 - 1),
+             Dec(15, 19), Dec(602214076, 15), Dec(0 - 325, 16), Dec(25, 16), Dec(12345, 26), Dec(1, 17), Dec(123456789, 9) }      \* magnitudes >= 10^17 with and without fraction digits in the mantissa
 PrimCases(p) ==
   { p, Arr2(p, One), Arr2(One, p), Arr1(p), O1(KK, p),
     Arr2(Row(KK, p, M, One), Row(KK, p, M, One)),                  \* tabular cell, first column
